@@ -247,6 +247,13 @@ impl Behaviour {
             return;
         }
 
+        // Remember the message even if we are not subscribed to any of its topics: should it be
+        // relayed back to us (e.g. after we subscribed in the meantime), it must neither be
+        // reported as a message received from the network nor be flooded a second time.
+        if !self_subscribed {
+            self.received.insert(message.clone(), ());
+        }
+
         // Send to peers we know are subscribed to the topic.
         for (peer_id, sub_topic) in self.connected_peers.iter() {
             // Peer must be in a communication list.
